@@ -137,12 +137,15 @@ Parse(b) ==
 (*    ("a recipient MUST be prepared to process values with leading zero     *)
 (*    bytes"), so fields are compared after stripping them;                  *)
 (*  - string: UTF-8.  A string option that is not valid UTF-8 (RFC 3629) is  *)
-(*    not a well-formed value; one that contains control characters is left  *)
-(*    open (Net-Unicode discourages them): both are outside the set on       *)
-(*    which exact fields are demanded.  Any other valid UTF-8 value is an    *)
-(*    opaque byte string to the codec: no Unicode normalisation (NFC, NFD,   *)
-(*    NFKC, NFKD) may happen on the way in or out -- Field() returns the     *)
-(*    value bytes verbatim, EncMsg copies them verbatim.                     *)
+(*    not a well-formed value (class "badutf8").  Any valid UTF-8 value is   *)
+(*    an opaque byte string to the codec: no Unicode normalisation (NFC,     *)
+(*    NFD, NFKC, NFKD), no line-end conversion, no percent-decoding, no      *)
+(*    rule of RFC 7252 5.10 / RFC 3986 about particular values may change or *)
+(*    refuse it -- Field() returns the value bytes verbatim, EncMsg copies   *)
+(*    them verbatim.  One thing is left open: a value with control           *)
+(*    characters (class "ctlchars"; Net-Unicode discourages them) may be     *)
+(*    refused as unparsable; if it is accepted, the fields and the           *)
+(*    re-serialisation are demanded exactly as for "wf".                     *)
 (* Numbers in none of the tables: the statement is silent on whether the     *)
 (* library reads them as opaque or as uint, both representations are given.  *)
 UintOpts   == {6, 7, 12, 14, 16, 17, 23, 27, 28, 60, 258}
@@ -204,10 +207,13 @@ StringsClass(opts) ==
 
 (* What the property demands for a byte string:                              *)
 (*   <<"wf", type, code, mid, token, fields, payload>>   exactly these fields *)
-(*   <<"badutf8" | "ctlchars" | "emptyplus", ... same ...>>                   *)
-(*        the framing is fine but a string value is not, or the code is 0.00  *)
-(*        (Empty) and bytes follow the message ID, which RFC 7252 section 4.1 *)
-(*        makes a format error: UnparsableMessage or a round-tripping message *)
+(*   <<"ctlchars", ... same ...>>   a string value has control characters:   *)
+(*        UnparsableMessage, or exactly these fields                          *)
+(*   <<"badutf8" | "emptyplus", ... same ...>>                                *)
+(*        the framing is fine but a string value is not UTF-8, or the code is *)
+(*        0.00 (Empty) and bytes follow the message ID, which RFC 7252        *)
+(*        section 4.1 makes a format error: UnparsableMessage or a            *)
+(*        round-tripping message                                              *)
 (*   <<"rej", reason>>                                   format error: same   *)
 Classify(b) ==
     LET v == Parse(b)
@@ -215,11 +221,13 @@ Classify(b) ==
         ELSE << IF v[3] = 0 /\ Len(b) > 4 THEN "emptyplus" ELSE StringsClass(v[6]),
                 v[2], v[3], v[4], v[5], Fields(v[6]), v[7] >>
 
-(* 1 iff b is well-formed, no option value has an alternative reading, and   *)
+(* 1 iff b is well-formed (or differs from that only by control characters   *)
+(* in a string value: a parser may refuse those, but if it accepts them it   *)
+(* must not rewrite them), no option value has an alternative reading, and   *)
 (* serialising the expected fields gives b back (always, unless a uint value *)
 (* was sent with leading zero bytes); c is Classify(b)                       *)
 ReserialisesC(c, b) ==
-    IF c[1] # "wf" THEN 0
+    IF c[1] \notin {"wf", "ctlchars"} THEN 0
     ELSE IF \E i \in 1..Len(c[6]) : Len(c[6][i]) = 3 THEN 0
     ELSE IF EncMsg(<< c[2], c[3], c[4], c[5],
                       [i \in 1..Len(c[6]) |-> << c[6][i][1], c[6][i][2] >>], c[7] >>) = b
